@@ -255,15 +255,15 @@ private theorem xuper_inv (e : Env) (t : SigLogic.Tx) (x : XSign) (v : List Name
         · simp at h
       · simp at h
 
-private theorem utxoLoop_inv (e : Env) (t : SigLogic.Tx) (ins : List Input) (v : List Name)
-    (hv : ∀ x ∈ v, Justified e t x) (h : utxoLoop e t.authRequire ins v = true) :
-    ∀ i ∈ ins, i.byContract = false → Justified e t i.owner := by
+private theorem utxoLoop_inv (e : Env) (t : SigLogic.Tx) (ex : Input → Bool) (ins : List Input) (v : List Name)
+    (hv : ∀ x ∈ v, Justified e t x) (h : utxoLoop e t.authRequire ex ins v = true) :
+    ∀ i ∈ ins, ex i = false → Justified e t i.owner := by
   induction ins generalizing v with
   | nil => simp
   | cons i ins ih =>
     unfold utxoLoop at h
     intro j hj hb
-    by_cases hc : i.byContract = true
+    by_cases hc : ex i = true
     · simp only [hc, if_true] at h
       rcases List.mem_cons.mp hj with rfl | hj
       · rw [hc] at hb; cases hb
@@ -300,7 +300,8 @@ key hashing to it (an account initiator: every initiator signature verifies unde
 and the account's rule accepts those signers); every `AuthRequire` entry's address has a valid
 signature; and the owner of every spent output that is not contract-justified is an address with
 a valid signature or an account whose rule the listed signers satisfy. -/
-theorem accept_implies_signed (e : Env) (t : SigLogic.Tx) (h : verifyTx e t = true) :
+theorem accept_implies_signed_with (ex : SigLogic.Tx → Input → Bool) (e : Env) (t : SigLogic.Tx)
+    (h : verifyTxWith ex e t = true) :
     t.txidOk = true ∧
     (∀ a, t.initiator = .ak a → signedBy t a) ∧
     (∀ n, t.initiator = .account n → t.xuper = none ∧
@@ -308,8 +309,8 @@ theorem accept_implies_signed (e : Env) (t : SigLogic.Tx) (h : verifyTx e t = tr
         ∃ uris, e.acctOk n uris = true ∧ ∀ w ∈ uris, w.prefixAcct = some n ∧ ∃ s ∈ t.initiatorSigns, s.keyAddr = some w.addr) ∧
     t.initiator ≠ .invalid ∧
     (∀ r ∈ t.authRequire, signedBy t r.addr) ∧
-    (∀ i ∈ t.inputs, i.byContract = false → Justified e t i.owner) := by
-  unfold verifyTx at h
+    (∀ i ∈ t.inputs, ex t i = false → Justified e t i.owner) := by
+  unfold verifyTxWith at h
   simp only [Bool.and_eq_true] at h
   obtain ⟨htx, h⟩ := h
   cases hvs : verifySignatures e t with
@@ -384,9 +385,29 @@ theorem accept_implies_signed (e : Env) (t : SigLogic.Tx) (h : verifyTx e t = tr
                 · exact hu
               · simp [hacct] at hvs
     obtain ⟨k1, k2, k2', k3, k4⟩ := key
-    refine ⟨htx, k2, k2', k3, ?_, utxoLoop_inv e t t.inputs v k1 h⟩
+    refine ⟨htx, k2, k2', k3, ?_, utxoLoop_inv e t (ex t) t.inputs v k1 h⟩
     intro r hr
     exact k1 _ (k4 r hr)
+
+/-- the exemption rule of the code: an input is left to the re-execution check iff the transaction
+declares a contract input with the same owner, txid and offset -/
+theorem byContract_iff (cins : List Input) (i : Input) :
+    byContract cins i = true ↔ ∃ c ∈ cins, c.owner = i.owner ∧ c.txid = i.txid ∧ c.offset = i.offset := by
+  simp [byContract, sameUtxo, and_assoc]
+
+/-- **Acceptance implies signatures and ownership** (`ImmediateVerifyTx` up to
+`verifyUTXOPermission`): see `accept_implies_signed_with`; the inputs not covered by the owner
+check are exactly those declared, with their owner, as spent by the contract execution. -/
+theorem accept_implies_signed (e : Env) (t : SigLogic.Tx) (h : verifyTx e t = true) :
+    t.txidOk = true ∧
+    (∀ a, t.initiator = .ak a → signedBy t a) ∧
+    (∀ n, t.initiator = .account n → t.xuper = none ∧
+        (∀ s ∈ t.initiatorSigns, ∃ a, s.keyAddr = some a ∧ s.sigOk = true) ∧
+        ∃ uris, e.acctOk n uris = true ∧ ∀ w ∈ uris, w.prefixAcct = some n ∧ ∃ s ∈ t.initiatorSigns, s.keyAddr = some w.addr) ∧
+    t.initiator ≠ .invalid ∧
+    (∀ r ∈ t.authRequire, signedBy t r.addr) ∧
+    (∀ i ∈ t.inputs, byContract t.contractInputs i = false → Justified e t i.owner) :=
+  accept_implies_signed_with _ e t h
 
 /-- Hence a transaction in which some listed signer's entry does not verify (wrong key, signature
 over another digest, removed) and no other entry of that address does, is rejected. -/
@@ -398,7 +419,7 @@ theorem unsigned_signer_rejected (e : Env) (t : SigLogic.Tx) (r : AuthReq) (hr :
 
 /-- …and one whose spent output belongs to an address that did not sign is rejected. -/
 theorem unsigned_owner_rejected (e : Env) (t : SigLogic.Tx) (i : Input) (a : Addr) (hi : i ∈ t.inputs)
-    (hb : i.byContract = false) (ho : i.owner = .ak a) (hno : ¬ signedBy t a) : verifyTx e t = false := by
+    (hb : byContract t.contractInputs i = false) (ho : i.owner = .ak a) (hno : ¬ signedBy t a) : verifyTx e t = false := by
   apply Bool.eq_false_iff.mpr
   intro h
   have := (accept_implies_signed e t h).2.2.2.2.2 i hi hb
@@ -407,7 +428,7 @@ theorem unsigned_owner_rejected (e : Env) (t : SigLogic.Tx) (i : Input) (a : Add
 
 /-- a changed id (or changed content under the old id) is rejected -/
 theorem txid_mismatch_rejected (e : Env) (t : SigLogic.Tx) (h : t.txidOk = false) : verifyTx e t = false := by
-  simp [verifyTx, h]
+  simp [verifyTx, verifyTxWith, h]
 
 /-- the property at full strength for the signature area: every signature entry of an accepted
 transaction is a valid one (so that altering or adding any entry yields rejection) -/
@@ -421,14 +442,15 @@ but not in the digest, so with a recomputed id the altered transaction is accept
 theorem signature_mutation_rejected_counterexample : ¬ signature_mutation_rejected_statement := by
   intro h
   have := h ⟨fun _ _ => true, fun _ => true⟩
-    ⟨true, .ak 1, [⟨some 1, true⟩, ⟨none, false⟩], [], [], none, [⟨.ak 1, false⟩]⟩ (by decide) ⟨none, false⟩ (by simp)
+    { txidOk := true, initiator := .ak 1, initiatorSigns := [⟨some 1, true⟩, ⟨none, false⟩], authRequire := [],
+      authRequireSigns := [], xuper := none, inputs := [{ owner := .ak 1 }] } (by decide) ⟨none, false⟩ (by simp)
   simp at this
 
 /-- What does hold: a mutation that leaves the initiator, a listed signer or the owner of a spent
 output without any valid entry is rejected. -/
 theorem signature_mutation_rejected_partial (e : Env) (t : SigLogic.Tx)
     (h : (∃ a, t.initiator = .ak a ∧ ¬ signedBy t a) ∨ (∃ r ∈ t.authRequire, ¬ signedBy t r.addr) ∨
-         (∃ i ∈ t.inputs, ∃ a, i.byContract = false ∧ i.owner = .ak a ∧ ¬ signedBy t a)) :
+         (∃ i ∈ t.inputs, ∃ a, byContract t.contractInputs i = false ∧ i.owner = .ak a ∧ ¬ signedBy t a)) :
     verifyTx e t = false := by
   rcases h with ⟨a, ha, hno⟩ | ⟨r, hr, hno⟩ | ⟨i, hi, a, hb, ho, hno⟩
   · apply Bool.eq_false_iff.mpr
@@ -437,7 +459,209 @@ theorem signature_mutation_rejected_partial (e : Env) (t : SigLogic.Tx)
   · exact unsigned_signer_rejected e t r hr hno
   · exact unsigned_owner_rejected e t i a hi hb ho hno
 
+/-! ## Part 3 — outputs spent by the contract code the transaction carries
+
+The third way an output may be spent: the contract execution the transaction carries spends it.
+Such an input is exempted from the owner check, and `verifyTxRWSets` re-executes the carried code
+over exactly the declared inputs.  The theorems say that this exemption cannot be used for an
+output whose owner is not a payer of a `Transfer` the code itself makes — *because* the exemption
+is keyed by owner, txid and offset (`exemption_needs_owner`: keyed by txid and offset alone, a
+victim's output passes as the contract's). -/
+
+private theorem selectUtxo_spec (p : Name) (a : Nat) (ins : List Input) (s : Nat) (tk : List Input) (tot : Nat)
+    (left : List Input) (h : selectUtxo p a ins s = some (tk, tot, left)) :
+    (∀ i ∈ tk, i.owner = p) ∧ tk ++ left = ins := by
+  induction ins generalizing s tk tot left with
+  | nil => simp [selectUtxo] at h
+  | cons i rest ih =>
+    unfold selectUtxo at h
+    split at h
+    · cases h
+    · rename_i ho
+      have ho' : i.owner = p := by simpa using ho
+      split at h
+      · simp only [Option.some.injEq, Prod.mk.injEq] at h
+        obtain ⟨rfl, _, rfl⟩ := h
+        exact ⟨by simp [ho'], rfl⟩
+      · cases hr : selectUtxo p a rest (s + i.amount) with
+        | none => simp [hr] at h
+        | some r =>
+          obtain ⟨tk', tot', left'⟩ := r
+          simp only [hr, Option.some.injEq, Prod.mk.injEq] at h
+          obtain ⟨rfl, _, rfl⟩ := h
+          obtain ⟨a1, a2⟩ := ih _ _ _ _ hr
+          refine ⟨?_, by simp [a2]⟩
+          intro j hj
+          rcases List.mem_cons.mp hj with rfl | hj
+          · exact ho'
+          · exact a1 j hj
+
+/-- **What a re-execution can spend and pay.**  Whatever inputs the sandbox is given, the code
+spends only outputs of the payers of its own transfers (the reader refuses any other owner), takes
+them from the front of what it was given, and pays only the recipients it names or the payers. -/
+theorem runTransfers_spec (code : List Transfer) (avail ins : List Input) (outs : List Output)
+    (h : runTransfers code avail = some (ins, outs)) :
+    (∀ i ∈ ins, ∃ tr ∈ code, i.owner = tr.payer) ∧ (∃ left, ins ++ left = avail) ∧
+    (∀ o ∈ outs, ∃ tr ∈ code, o.to = tr.to ∨ o.to = tr.payer) := by
+  induction code generalizing avail ins outs with
+  | nil =>
+    simp only [runTransfers, Option.some.injEq, Prod.mk.injEq] at h
+    obtain ⟨rfl, rfl⟩ := h
+    exact ⟨by simp, ⟨avail, by simp⟩, by simp⟩
+  | cons tr trs ih =>
+    unfold runTransfers at h
+    split at h
+    · cases h
+    · cases hs : selectUtxo tr.payer tr.amount.toNat avail 0 with
+      | none => simp [hs] at h
+      | some r =>
+        obtain ⟨tk, tot, left⟩ := r
+        simp only [hs] at h
+        cases hr : runTransfers trs left with
+        | none => simp [hr] at h
+        | some r' =>
+          obtain ⟨ins', outs'⟩ := r'
+          simp only [hr, Option.some.injEq, Prod.mk.injEq] at h
+          obtain ⟨rfl, rfl⟩ := h
+          obtain ⟨s1, s2⟩ := selectUtxo_spec _ _ _ _ _ _ _ hs
+          obtain ⟨r1, ⟨left', r2⟩, r3⟩ := ih _ _ _ hr
+          refine ⟨?_, ⟨left', by rw [List.append_assoc, r2, s2]⟩, ?_⟩
+          · intro i hi
+            rcases List.mem_append.mp hi with hi | hi
+            · exact ⟨tr, by simp, s1 i hi⟩
+            · obtain ⟨tr', h1, h2⟩ := r1 i hi
+              exact ⟨tr', by simp [h1], h2⟩
+          · intro o ho
+            rcases List.mem_append.mp ho with ho | ho
+            · rcases List.mem_cons.mp ho with rfl | ho
+              · exact ⟨tr, by simp, Or.inl rfl⟩
+              · split at ho
+                · simp at ho; subst ho; exact ⟨tr, by simp, Or.inr rfl⟩
+                · simp at ho
+            · obtain ⟨tr', h1, h2⟩ := r3 o ho
+              exact ⟨tr', by simp [h1], h2⟩
+
+/-- **Every spent output is authorised.**  If a transaction carrying contract code is accepted,
+then re-executing the code over the declared inputs spends and pays exactly what is declared, the
+declared payments are outputs of the transaction, every declared input is an input of the
+transaction, and every input of the transaction belongs to an address with a valid signature, to
+an account whose rule the signers satisfy, or — same owner, same txid, same offset — is one of the
+outputs the code itself spends, from its payer, in that re-execution. -/
+theorem contract_spend_authorised (e : Env) (code : List Transfer) (t : SigLogic.Tx)
+    (h : verifyTxC (fun t => byContract t.contractInputs) e code t = true) :
+    runTransfers code t.contractInputs = some (t.contractInputs, t.contractOutputs) ∧
+    subOutputs t.contractOutputs t.outputs = true ∧
+    (∀ c ∈ t.contractInputs, ∃ i ∈ t.inputs, i.txid = c.txid ∧ i.offset = c.offset) ∧
+    ∀ i ∈ t.inputs, Justified e t i.owner ∨
+      ((∃ c ∈ t.contractInputs, c.owner = i.owner ∧ c.txid = i.txid ∧ c.offset = i.offset) ∧
+       ∃ tr ∈ code, tr.payer = i.owner) := by
+  unfold verifyTxC at h
+  simp only [Bool.and_eq_true] at h
+  obtain ⟨hv, hc⟩ := h
+  unfold verifyContract at hc
+  simp only [Bool.and_eq_true] at hc
+  obtain ⟨heff, hre⟩ := hc
+  cases hr : runTransfers code t.contractInputs with
+  | none => simp [hr] at hre
+  | some r =>
+    obtain ⟨ins, outs⟩ := r
+    simp only [hr, Bool.and_eq_true, beq_iff_eq] at hre
+    obtain ⟨rfl, rfl⟩ := hre
+    obtain ⟨r1, _, _⟩ := runTransfers_spec _ _ _ _ hr
+    unfold effective at heff
+    simp only [Bool.and_eq_true, List.all_eq_true, List.any_eq_true, beq_iff_eq] at heff
+    obtain ⟨⟨⟨_, _⟩, hin⟩, hsub⟩ := heff
+    refine ⟨rfl, hsub, ?_, ?_⟩
+    · intro c hc'
+      obtain ⟨i, hi, h1, h2⟩ := hin c hc'
+      exact ⟨i, hi, h1, h2⟩
+    · intro i hi
+      by_cases hb : byContract t.contractInputs i = true
+      · right
+        obtain ⟨c, hc', h1, h2, h3⟩ := (byContract_iff _ _).mp hb
+        refine ⟨⟨c, hc', h1, h2, h3⟩, ?_⟩
+        obtain ⟨tr, htr, hp⟩ := r1 c hc'
+        exact ⟨tr, htr, by rw [← hp, h1]⟩
+      · left
+        exact (accept_implies_signed_with _ e t hv).2.2.2.2.2 i hi (by simpa using hb)
+
+/-- the clause of the property: no output is spent unless its owner signed (directly or through
+its account) or the carried code spends it from that owner -/
+def contract_spend_authorised_statement (ex : SigLogic.Tx → Input → Bool) : Prop :=
+  ∀ (e : Env) (code : List Transfer) (t : SigLogic.Tx), verifyTxC ex e code t = true →
+    ∀ i ∈ t.inputs, Justified e t i.owner ∨ ∃ tr ∈ code, tr.payer = i.owner
+
+theorem contract_spend_authorised_full :
+    contract_spend_authorised_statement (fun t => byContract t.contractInputs) := by
+  intro e code t h i hi
+  rcases (contract_spend_authorised e code t h).2.2.2 i hi with hj | ⟨_, hp⟩
+  · exact Or.inl hj
+  · exact Or.inr hp
+
+/-- Hence the transaction of the forged-view attack — the victim's output `(a, T, k)` in the inputs,
+`(contract, T, k)` declared to the re-execution, the victim not among the signers, the code paying
+only out of other pockets — is rejected. -/
+theorem unsigned_owner_rejected_contract (e : Env) (code : List Transfer) (t : SigLogic.Tx) (i : Input) (a : Addr)
+    (hi : i ∈ t.inputs) (ho : i.owner = .ak a) (hno : ¬ signedBy t a) (hcode : ∀ tr ∈ code, tr.payer ≠ .ak a) :
+    verifyTxC (fun t => byContract t.contractInputs) e code t = false := by
+  apply Bool.eq_false_iff.mpr
+  intro h
+  rcases contract_spend_authorised_full e code t h i hi with hj | ⟨tr, htr, hp⟩
+  · rw [ho] at hj; exact hno hj
+  · exact hcode tr htr (by rw [hp, ho])
+
+/-- **No code, no exemption.**  A transaction that carries no contract request cannot use the
+contract exemption at all: if it is accepted, the owner of every spent output signed (directly or
+through its account). -/
+theorem no_code_no_exemption (e : Env) (t : SigLogic.Tx)
+    (h : verifyTxNoCode (fun t => byContract t.contractInputs) e t = true) :
+    ∀ i ∈ t.inputs, Justified e t i.owner := by
+  unfold verifyTxNoCode at h
+  simp only [Bool.and_eq_true, List.isEmpty_iff] at h
+  obtain ⟨⟨hv, hc⟩, _⟩ := h
+  intro i hi
+  exact (accept_implies_signed_with _ e t hv).2.2.2.2.2 i hi (by simp [byContract, hc])
+
+/-- an exemption keyed by the output reference alone (txid, offset), as `isContractUtxoEffective`
+compares -/
+def byRefOnly (cins : List Input) (i : Input) : Bool := cins.any (fun c => c.txid == i.txid && c.offset == i.offset)
+
+private def vault : Name := .ak 999
+private def envAcl : Env := ⟨fun n uris => uris.any (fun u => u.prefixAcct == some n && u.addr == n), fun n => n < 8⟩
+
+/-- the forged-view attack: address 0 signs; the only input is address 6's output (txid 1, offset 0);
+the execution was shown that output as the vault's -/
+private def forged : SigLogic.Tx :=
+  { txidOk := true, initiator := .ak 0, initiatorSigns := [⟨some 0, true⟩], authRequire := [], authRequireSigns := [],
+    xuper := none, inputs := [⟨.ak 6, 1, 0, 100⟩], outputs := [⟨100, .ak 0⟩],
+    contractInputs := [⟨vault, 1, 0, 100⟩], contractOutputs := [⟨100, .ak 0⟩] }
+
+/-- **The owner must be part of the exemption key**: were contract-justified inputs matched by txid
+and offset only, the forged-view transaction would be accepted although address 6 never signed and
+the code pays out of the vault only. -/
+theorem exemption_needs_owner : ¬ contract_spend_authorised_statement (fun t => byRefOnly t.contractInputs) := by
+  intro h
+  have hacc : verifyTxC (fun t => byRefOnly t.contractInputs) envAcl [⟨vault, .ak 0, 100⟩] forged = true := by decide
+  rcases h envAcl [⟨vault, .ak 0, 100⟩] forged hacc ⟨.ak 6, 1, 0, 100⟩ (by simp [forged]) with hj | ⟨tr, htr, hp⟩
+  · rcases hj with ⟨s, hs, hk, _⟩ | ⟨x, hx, _⟩
+    · simp [forged] at hs; subst hs; simp at hk
+    · simp [forged] at hx
+  · simp at htr; subst htr; simp [vault] at hp
+
 /-! ## non-vacuity -/
+
+/-- the code as it is rejects the forged-view transaction … -/
+example : verifyTxC (fun t => byContract t.contractInputs) envAcl [⟨vault, .ak 0, 100⟩] forged = false := by decide
+/-- … and accepts the honest withdrawal (two vault outputs of 100, 150 paid, 50 back to the vault,
+an own output of the signer and an output of the account he controls spent alongside) -/
+example : verifyTxC (fun t => byContract t.contractInputs) envAcl [⟨vault, .ak 0, 150⟩]
+    { txidOk := true, initiator := .ak 0, initiatorSigns := [⟨some 0, true⟩], authRequire := [⟨some 2, 2⟩],
+      authRequireSigns := [⟨some 2, true⟩], xuper := none,
+      inputs := [⟨.ak 0, 20, 3, 50⟩, ⟨vault, 1, 0, 100⟩, ⟨.account 2, 7, 0, 5⟩, ⟨vault, 2, 1, 100⟩],
+      outputs := [⟨150, .ak 0⟩, ⟨50, vault⟩, ⟨55, .ak 5⟩],
+      contractInputs := [⟨vault, 1, 0, 100⟩, ⟨vault, 2, 1, 100⟩], contractOutputs := [⟨150, .ak 0⟩, ⟨50, vault⟩] } = true := by decide
+example : runTransfers [⟨vault, .ak 0, 120⟩, ⟨vault, .ak 0, 100⟩] [⟨vault, 1, 0, 100⟩, ⟨vault, 2, 1, 100⟩, ⟨vault, 3, 0, 100⟩] =
+    some ([⟨vault, 1, 0, 100⟩, ⟨vault, 2, 1, 100⟩, ⟨vault, 3, 0, 100⟩], [⟨120, .ak 0⟩, ⟨80, vault⟩, ⟨100, .ak 0⟩]) := by decide
 
 private def w8 (n : Nat) : W8 := ⟨be8 n, be8_length n⟩
 
@@ -453,7 +677,8 @@ example : digestPre tx0 ≠ digestPre { tx0 with core := { tx0.core with desc :=
 
 private def env0 : Env := ⟨fun _ _ => true, fun _ => true⟩
 private def stx : SigLogic.Tx :=
-  ⟨true, .ak 1, [⟨some 1, true⟩], [⟨none, 2⟩], [⟨some 2, true⟩], none, [⟨.ak 2, false⟩, ⟨.account 7, false⟩]⟩
+  { txidOk := true, initiator := .ak 1, initiatorSigns := [⟨some 1, true⟩], authRequire := [⟨none, 2⟩],
+    authRequireSigns := [⟨some 2, true⟩], xuper := none, inputs := [{ owner := .ak 2 }, { owner := .account 7 }] }
 example : verifyTx env0 stx = true := by decide
 example : verifyTx env0 { stx with authRequireSigns := [⟨some 3, true⟩] } = false := by decide
 
